@@ -382,6 +382,7 @@ Definition tp_group (bit : N) : N * N * N * nat :=
   else (32, 24, 31, 3%nat).
 
 Definition set_train_peripheral (w : world) (t per state out : N) : res :=
+  if 1 <? state then Done 1 [] w else      (* state must be 0 or 1 (repo commit fafecdd) *)
   match find_train w t with
   | None => Done 1 [] w
   | Some tr =>
